@@ -1,32 +1,41 @@
 //! Kani harnesses for netflow_parser (out-of-tree; path dependency on /repo, so every
 //! run re-compiles /repo's current working tree).  See /verif/DESIGN.md.
+//!
+//! One cargo feature per harness module (`m_<module>`): the driver builds only the module a
+//! harness lives in, so a change of /repo that alters the signature of an internal function
+//! breaks the build of the modules that call it and of nothing else (the end-to-end and
+//! parse_bytes-level harnesses use the public API only).
 #![allow(dead_code, unused_imports, unused_variables, unused_mut, clippy::all)]
 
 #[cfg(kani)]
 pub mod common;
 #[cfg(kani)]
+pub mod km;
+#[cfg(all(kani, feature = "m_fixed"))]
 pub mod fixed;
-#[cfg(kani)]
+#[cfg(all(kani, feature = "m_k"))]
 pub mod k;
-#[cfg(kani)]
+#[cfg(all(kani, feature = "m_s9"))]
 pub mod s9;
-#[cfg(kani)]
+#[cfg(all(kani, feature = "m_d9"))]
 pub mod d9;
-#[cfg(kani)]
+#[cfg(all(kani, feature = "m_w"))]
 pub mod w;
-#[cfg(kani)]
+#[cfg(all(kani, feature = "m_x"))]
 pub mod x;
-#[cfg(kani)]
+#[cfg(all(kani, feature = "m_s10"))]
 pub mod s10;
-#[cfg(kani)]
+#[cfg(all(kani, feature = "m_d10"))]
 pub mod d10;
-#[cfg(kani)]
+#[cfg(all(kani, feature = "m_p"))]
 pub mod p;
-#[cfg(kani)]
+#[cfg(all(kani, feature = "m_ser"))]
 pub mod ser;
-#[cfg(kani)]
+#[cfg(all(kani, feature = "m_cv"))]
 pub mod cv;
-#[cfg(kani)]
+#[cfg(all(kani, feature = "m_e2e"))]
 pub mod e2e;
-#[cfg(kani)]
+#[cfg(all(kani, feature = "m_c15"))]
 pub mod c15;
+#[cfg(all(kani, feature = "m_h"))]
+pub mod h;
